@@ -15,6 +15,7 @@
 //	    the answer carries "pn": the parameter names and kinds of the real method object);
 //	    with "alias":"to"|"from"|"prop"|"param" (forms var and chain) a COPY of the receiver is made before the
 //	    call ($alias = $a / $a = $alias / $h->a = $a / by-value parameter) and reported as "alias" afterwards;
+//	    mix ($a->m(p.., ...[q..], r.., ...$xs): "parts" = [{"s":false,"v":[..]},{"s":true,"var":false,"v":[..]},..]);
 //	    chain ($a->m(..)->m2(args2..): "m2","args2","cb2" give the second call; the receiver $a is observed)
 //
 // E = null | true | false | {"i":"5"} | {"s":"x"} | [E...] | {"f":"<float64 bits>"} | {"o":"<n>"} (an object, one per n)
@@ -61,7 +62,16 @@ type Case struct {
 	Args2 []json.RawMessage `json:"args2"`
 	Cb2   string            `json:"cb2"`
 	Alias string            `json:"alias"`
+	Parts []Part            `json:"parts"`
 	Named []NamedArg        `json:"named"`
+}
+
+// Part: a run of the argument list as written: plain arguments, or one ...spread of these values
+// (an array literal, or a variable holding it)
+type Part struct {
+	Spread bool              `json:"s"`
+	Var    bool              `json:"var"`
+	V      []json.RawMessage `json:"v"`
 }
 
 type NamedArg struct {
@@ -258,7 +268,7 @@ func runScript(c Case) (o Obs) {
 	}
 	var pre, recv string
 	switch c.Form {
-	case "var", "spread", "named", "chain":
+	case "var", "spread", "named", "chain", "mix":
 		pre, recv = "$a = "+recvLit+";", "$a"
 	case "prop":
 		pre, recv = "$o = new C15H(); $o->a = "+recvLit+";", "$o->a"
@@ -272,6 +282,28 @@ func runScript(c Case) (o Obs) {
 	switch c.Form {
 	case "spread":
 		list = append(list, "...["+strings.Join(args, ", ")+"]")
+	case "mix":
+		// plain arguments and ...spreads in the order written ("args" is not used)
+		for pi, part := range c.Parts {
+			lits := make([]string, len(part.V))
+			for i, v := range part.V {
+				t, ok := lit(v)
+				if !ok {
+					return Obs{Out: "skip", Msg: "argument has no literal"}
+				}
+				lits[i] = t
+			}
+			switch {
+			case !part.Spread:
+				list = append(list, lits...)
+			case part.Var:
+				name := "$xs" + strconv.Itoa(pi)
+				pre += " " + name + " = [" + strings.Join(lits, ", ") + "];"
+				list = append(list, "..."+name)
+			default:
+				list = append(list, "...["+strings.Join(lits, ", ")+"]")
+			}
+		}
 	case "named":
 		list = append(list, args...)
 		for _, n := range c.Named {
